@@ -122,6 +122,53 @@ check("C14", "model_checking",
       "exhaustive enumeration of a finite configuration space against the documented rules, with conformance runs on compiled code",
       "DESIGN.md 4 C14")
 
+check("C03", "exploration",
+      "On compiled generated code: for every operation of the bounded operation space (other-variant off, and on wherever "
+      "an abstract position exists) one conforming payload per runtime-type choice and every single-point corruption of "
+      "it (null / missing at non-null, non-list at list, each wrong JSON kind at each scalar, non-object at object, "
+      "__typename unknown / deleted / non-string / swapped). Forbidden payloads must be rejected; unknown __typename must be "
+      "an error or, with the option on, yield Unknown; a swapped known __typename must select its own variant.",
+      "Trusted: reference executor for positions and types; rustc/serde as semantics of generated code. Not demanded: "
+      "rejecting extra keys, integers at Float, missing keys at nullable positions, arrays for objects.",
+      "bounded exhaustive enumeration of single-point corruptions on compiled generated code",
+      "DESIGN.md 4 C03")
+
+check("C04", "exploration",
+      "On compiled generated code: variables of every input type expression (10 named types x all modifier placements to "
+      "list depth 2, thorough 3), special variable names, x skip_serializing_none x normalization; every assignment within "
+      "the deviation bound is deserialised into Variables (expressibility) and serialised via build_query; the output must "
+      "equal the reference Variables model (exact key set, schema names, @oneOf single key, None omitted or null).",
+      "Trusted: the reference Variables model; serde's derive as semantics of the generated types.",
+      "bounded exhaustive enumeration of variable assignments on compiled generated code against a reference model",
+      "DESIGN.md 4 C04")
+
+check("C09", "exploration",
+      "Relational check on compiled code: collision-rich operations x every wire-neutral option set (quick: default + all "
+      "single and pairwise deviations; thorough: the full product of 7 dimensions) x every payload vector, single-point "
+      "corruption and variables assignment; acceptance, re-serialised payload and serialised variables must equal those "
+      "under the default options.",
+      "Trusted: nothing beyond rustc/serde; the oracle is equality between option sets. Extern enums are consumer-supplied "
+      "with the behaviour the README prescribes.",
+      "metamorphic enumeration over option sets on compiled generated code",
+      "DESIGN.md 4 C09")
+
+check("C10", "exploration",
+      "On compiled generated code: enum definitions over a naming alphabet (case styles, all keywords, Other-lookalikes; "
+      "singles, pairs, mixed sets) x normalization x three positions (response field, variable, input field) x a string "
+      "alphabet (schema values, near-misses, empty, blank, non-ASCII, long) and non-string values. Every string must "
+      "deserialise and serialise back to itself; schema values get distinct non-catch-all variants.",
+      "Trusted: Debug output of the generated enum to tell variants apart.",
+      "bounded exhaustive enumeration of enum definitions x strings on compiled generated code",
+      "DESIGN.md 4 C10")
+
+check("C11", "exploration",
+      "Finite space enumerated completely: 54 keywords (strict, reserved, weak; editions 2015-2024), 14 case styles, 10 "
+      "controls x 6 name positions; one generated module per (name, position), compiled and run; the wire key / string must "
+      "be exactly the GraphQL name.",
+      "Trusted: rustc (edition 2021) and serde.",
+      "exhaustive enumeration of names x positions on compiled generated code",
+      "DESIGN.md 4 C11")
+
 NOT_APPLICABLE = []
 
 
